@@ -56,6 +56,7 @@ use crate::stats::SharedStats;
 pub mod verif_hooks {
     pub use super::connections::reconnect_uplink;
     pub use super::housekeeping::handle_housekeeping;
+    pub use super::packet_handler::drain_packet_queue;
     pub use super::packet_handler::{
         flush_all_batches, forward_via_connection, handle_srt_packet, handle_uplink_packet,
         process_connection_events,
